@@ -196,3 +196,145 @@ Proof.
       assert (E : ((a + b) / 2 == (a + b) * (1 # 2))%Q) by (unfold Qdiv; reflexivity).
       rewrite E. split; lra.
 Qed.
+
+(* ================================================================== the median filter *)
+
+Definition fits_b (lo hi ny nx r c : Z) : bool :=
+  (lo <=? r) && (r + hi <? ny) && (lo <=? c) && (c + hi <? nx).
+
+Lemma fits_b_iff : forall lo hi ny nx r c, fits_b lo hi ny nx r c = true <-> fits lo hi ny nx r c.
+Proof. intros. unfold fits_b, fits. rewrite !andb_true_iff, !Z.leb_le, !Z.ltb_lt. tauto. Qed.
+
+Lemma fits_b_false : forall lo hi ny nx r c, fits_b lo hi ny nx r c = false <-> ~ fits lo hi ny nx r c.
+Proof. intros. rewrite <- fits_b_iff. destruct (fits_b lo hi ny nx r c); split; congruence. Qed.
+
+Lemma half_odd : forall rad, (2 * rad + 1) / 2 = rad.
+Proof. intros. symmetry. apply (Z.div_unique _ _ _ 1); lia. Qed.
+
+(* what MedianFilter.median_filter computes at pixel (r, c): for EVERY block size B >= 1 and
+   every image size (also smaller than the window) *)
+Lemma median_filter_at : forall B rad ny nx (data : map2) r c, 1 <= B -> 0 <= rad ->
+  median_filter B (2 * rad + 1) ny nx data r c =
+  match data r c with
+  | None => None
+  | Some v => if fits_b rad rad ny nx r c
+              then nanmedian (window data (2 * rad + 1) (r - rad) (c - rad))
+              else Some v
+  end.
+Proof.
+  intros B rad ny nx data r c HB Hrad. unfold median_filter.
+  destruct ((ny <? 2 * rad + 1) || (nx <? 2 * rad + 1)) eqn:Esmall.
+  - (* image smaller than the window: returned as it is; no pixel fits *)
+    assert (Hnf : fits_b rad rad ny nx r c = false).
+    { apply fits_b_false. unfold fits. apply orb_true_iff in Esmall. rewrite !Z.ltb_lt in Esmall. lia. }
+    rewrite Hnf. destruct (data r c); reflexivity.
+  - apply orb_false_iff in Esmall. rewrite !Z.ltb_ge in Esmall. destruct Esmall as [Hy Hx].
+    rewrite half_odd. rewrite loop2_spec by lia.
+    destruct (data r c) as [v|] eqn:Ed; cbn [is_none]; [|reflexivity].
+    unfold fits_b.
+    replace (r <? rad + (ny - (2 * rad + 1) + 1)) with (r + rad <? ny)
+      by (destruct (Z.ltb_spec (r + rad) ny), (Z.ltb_spec r (rad + (ny - (2 * rad + 1) + 1))); lia).
+    replace (c <? rad + (nx - (2 * rad + 1) + 1)) with (c + rad <? nx)
+      by (destruct (Z.ltb_spec (c + rad) nx), (Z.ltb_spec c (rad + (nx - (2 * rad + 1) + 1))); lia).
+    destruct ((rad <=? r) && (r + rad <? ny) && (rad <=? c) && (c + rad <? nx)); reflexivity.
+Qed.
+
+(* the median filter on a map of valid values satisfies the Spec, pixel by pixel *)
+Theorem median_filter_map_spec : forall B rad ny nx (data : map2), 1 <= B -> 0 <= rad ->
+  median_map_spec rad ny nx data (median_filter B (2 * rad + 1) ny nx data).
+Proof.
+  intros B rad ny nx data HB Hrad r c. rewrite median_filter_at by assumption.
+  split; [|split].
+  - intros ->. reflexivity.
+  - intros Hnf. apply fits_b_false in Hnf. rewrite Hnf. destruct (data r c); reflexivity.
+  - intros Hf v Hv. rewrite Hv. apply fits_b_iff in Hf. rewrite Hf.
+    replace (2 * rad + 1) with (rad + rad + 1) by lia. rewrite window_as_win_px.
+    pose proof (nanmedian_spec (map (fun p : Z * Z => data (fst p) (snd p)) (win_px rad rad r c))) as Hm.
+    destruct (nanmedian _) as [m|].
+    + exists m. split; [reflexivity | exact Hm].
+    + exfalso. assert (Hin : In v (somes (map (fun p : Z * Z => data (fst p) (snd p)) (win_px rad rad r c)))).
+      { apply In_somes. apply in_map_iff. exists (r, c). split; [exact Hv|]. apply In_win_px. lia. }
+      rewrite Hm in Hin. exact Hin.
+Qed.
+
+(* ------------------------------------------------------------------ the filter step *)
+
+Lemma masked_data_valid_disp : forall inv disp mask r c,
+  masked_data inv disp mask r c = valid_disp inv disp mask r c.
+Proof.
+  intros. unfold masked_data, valid_disp, invalid_px.
+  destruct (Z.eq_dec (Z.land (mask r c) inv) 0) as [E|E].
+  - rewrite E. reflexivity.
+  - apply Z.eqb_neq in E. rewrite E. reflexivity.
+Qed.
+
+Theorem median_eq_spec : forall inv B rad ny nx disp mask, 1 <= B -> 0 <= rad ->
+  let out := median_filter_disparity inv B (2 * rad + 1) ny nx disp mask in
+  median_step_spec inv rad ny nx disp mask (fst out) (snd out).
+Proof.
+  intros inv B rad ny nx disp mask HB Hrad. cbn zeta. unfold median_filter_disparity. cbn [fst snd].
+  set (md := masked_data inv disp mask).
+  assert (Hmd : forall r c, md r c = valid_disp inv disp mask r c) by (intros; apply masked_data_valid_disp).
+  pose proof (median_filter_map_spec B rad ny nx md HB Hrad) as Hspec.
+  unfold median_step_spec. split; [reflexivity|]. split; [|split].
+  - intros r c Hnone. rewrite Hmd, Hnone. reflexivity.
+  - intros r c Hnf. destruct (Hspec r c) as (_ & Hb & _). rewrite (Hb Hnf).
+    rewrite Hmd. unfold valid_disp. destruct (Z.eq_dec _ 0); [|reflexivity].
+    destruct (disp r c); reflexivity.
+  - intros r c Hf v Hv. destruct (Hspec r c) as (_ & _ & Hi).
+    rewrite <- Hmd in Hv. destruct (Hi Hf v Hv) as (m & Hm & Hmed).
+    exists m. rewrite Hv. cbn [is_none]. split; [exact Hm|].
+    rewrite <- (win_vals_ext md) by (intros; apply Hmd). exact Hmed.
+Qed.
+
+Theorem median_between_min_max : forall inv B rad ny nx disp mask r c v, 1 <= B -> 0 <= rad ->
+  fits rad rad ny nx r c -> valid_disp inv disp mask r c = Some v ->
+  exists m, fst (median_filter_disparity inv B (2 * rad + 1) ny nx disp mask) r c = Some m /\
+            between_min_max m (win_vals (valid_disp inv disp mask) rad rad r c).
+Proof.
+  intros inv B rad ny nx disp mask r c v HB Hrad Hf Hv.
+  destruct (median_eq_spec inv B rad ny nx disp mask HB Hrad) as (_ & _ & _ & H).
+  destruct (H r c Hf v Hv) as (m & Hm & Hmed). exists m. split; [exact Hm | apply median_between, Hmed].
+Qed.
+
+(* the result does not depend on the block size, nor on the sizes the split points are computed from *)
+Theorem median_block_independent : forall inv B B' rad ny nx disp mask r c, 1 <= B -> 1 <= B' -> 0 <= rad ->
+  fst (median_filter_disparity inv B (2 * rad + 1) ny nx disp mask) r c
+  = fst (median_filter_disparity inv B' (2 * rad + 1) ny nx disp mask) r c.
+Proof.
+  intros. unfold median_filter_disparity. cbn [fst]. rewrite !median_filter_at by assumption. reflexivity.
+Qed.
+
+Lemma median_filter_block_independent : forall B B' rad ny nx data r c, 1 <= B -> 1 <= B' -> 0 <= rad ->
+  median_filter B (2 * rad + 1) ny nx data r c = median_filter B' (2 * rad + 1) ny nx data r c.
+Proof. intros. rewrite !median_filter_at by assumption. reflexivity. Qed.
+
+(* in-range side condition, proved: the filtered value of a pixel of the image depends on
+   pixels of the image only (no read outside the arrays) *)
+Lemma median_filter_reads_image_only : forall B rad ny nx (data data' : map2), 1 <= B -> 0 <= rad ->
+  (forall r c, 0 <= r < ny -> 0 <= c < nx -> data r c = data' r c) ->
+  forall r c, 0 <= r < ny -> 0 <= c < nx ->
+  median_filter B (2 * rad + 1) ny nx data r c = median_filter B (2 * rad + 1) ny nx data' r c.
+Proof.
+  intros B rad ny nx data data' HB Hrad Heq r c Hr Hc. rewrite !median_filter_at by assumption.
+  rewrite <- (Heq r c Hr Hc). destruct (data r c); [|reflexivity].
+  destruct (fits_b rad rad ny nx r c) eqn:Ef; [|reflexivity].
+  apply fits_b_iff in Ef. unfold fits in Ef.
+  replace (2 * rad + 1) with (rad + rad + 1) by lia. rewrite !window_as_win_px.
+  f_equal. apply map_ext_in. intros [r' c'] Hin. apply In_win_px in Hin. cbn [fst snd]. apply Heq; lia.
+Qed.
+
+Theorem median_reads_image_only : forall inv B rad ny nx disp disp' mask mask', 1 <= B -> 0 <= rad ->
+  (forall r c, 0 <= r < ny -> 0 <= c < nx -> disp r c = disp' r c /\ mask r c = mask' r c) ->
+  forall r c, 0 <= r < ny -> 0 <= c < nx ->
+  fst (median_filter_disparity inv B (2 * rad + 1) ny nx disp mask) r c
+  = fst (median_filter_disparity inv B (2 * rad + 1) ny nx disp' mask') r c.
+Proof.
+  intros inv B rad ny nx disp disp' mask mask' HB Hrad Heq r c Hr Hc.
+  unfold median_filter_disparity. cbn [fst].
+  assert (Hmd : forall r c, 0 <= r < ny -> 0 <= c < nx ->
+                 masked_data inv disp mask r c = masked_data inv disp' mask' r c).
+  { intros r0 c0 Hr0 Hc0. unfold masked_data. destruct (Heq r0 c0 Hr0 Hc0) as [-> ->]. reflexivity. }
+  rewrite (Hmd r c Hr Hc). destruct (Heq r c Hr Hc) as [-> _].
+  rewrite (median_filter_reads_image_only B rad ny nx _ _ HB Hrad Hmd r c Hr Hc). reflexivity.
+Qed.
